@@ -261,3 +261,118 @@ def check_no_narrowing(ck, P, rid):
         else:
             ck.holds(rid, inst, f.where, "the requested size is never narrowed on the way to its size class", cfg)
     ck.expect(rid, n, 3, "allocator entry points that classify a requested size")
+
+
+def check_realloc_copy(ck, P, rid):
+    """rs_realloc moves a block that cannot be kept: the copy reads at most the OLD block (its size is what
+    buddy_best_effort_realloc reports in .original = 1 << order found by climbing the allocation tree from ptr) and writes at
+    most the requested size."""
+    from . import query as Q
+    cfg = P.config
+    f = P.fn("rs_realloc")
+    inst = "copy-bound@rs_realloc"
+    pnames = [p["name"] for p in f.params]
+    copies = [c for c in f.calls() if c.callee in ("memcpy", "__builtin_memcpy", "__builtin___memcpy_chk", "memmove") and len(X.callee_args(c)) >= 3]
+    src_is_ptr = []
+    for c in copies:
+        s = Q.resolve_local(f, X.callee_args(c)[1])
+        if s is not None and s.k == "DeclRefExpr" and s.d.get("sc") == "param" and s.name == pnames[0]:
+            src_is_ptr.append(c)
+    if len(src_is_ptr) != 1:
+        ck.inconclusive(rid, inst, f.where, "the copy out of the old block (one memcpy from the pointer parameter) was not recognised", cfg)
+        return
+    c = src_is_ptr[0]
+    ln = Q.resolve_local(f, X.callee_args(c)[2])
+    # operands of min(a, b) / a < b ? a : b
+    ops = None
+    if ln.k == "StmtExpr" and ln.macros and ln.macros[-1] == "min":
+        decls = [v for v in ln.walk() if v.k == "VarDecl" and v.children]
+        if len(decls) == 2:
+            ops = [Q.resolve_local(f, d.children[0]) for d in decls]
+    elif ln.k == "ConditionalOperator":
+        cond = X.strip(ln.children[0])
+        a, b = X.strip(ln.children[1]), X.strip(ln.children[2])
+        if cond.k == "BinaryOperator" and cond.op in ("<", "<=", ">", ">="):
+            l, r = X.strip(cond.children[0]), X.strip(cond.children[1])
+            small_first = cond.op in ("<", "<=")
+            if {X.show(l), X.show(r)} == {X.show(a), X.show(b)} and (X.show(a) == X.show(l)) == small_first:
+                ops = [a, b]
+    if ops is None:
+        ops = [ln]
+
+    def is_request(n):
+        return n.k == "DeclRefExpr" and n.d.get("sc") == "param" and len(pnames) > 1 and n.name == pnames[1]
+
+    def is_original(n):
+        if n.k != "MemberExpr" or n.name != "original":
+            return False
+        base = X.strip(n.children[0])
+        if base.k != "DeclRefExpr":
+            return False
+        for v in f.walk():
+            if v.k == "VarDecl" and v.did == base.did and v.children:
+                call = X.strip(v.children[0])
+                if call.k == "CallExpr" and call.callee == "buddy_best_effort_realloc":
+                    a = X.callee_args(call)
+                    p_ = Q.resolve_local(f, a[1]) if len(a) > 1 else None
+                    return p_ is not None and p_.k == "DeclRefExpr" and p_.name == pnames[0]
+        return False
+    has_req = any(is_request(o) for o in ops)
+    has_org = any(is_original(o) for o in ops)
+    other = [o for o in ops if not is_request(o) and not is_original(o)]
+    if other:
+        ck.inconclusive(rid, inst, c.where, "copy length `%s` is not the smaller of the requested size and the reported old block size" % X.show(ln)[:80], cfg)
+    elif not has_org:
+        ck.violated(rid, inst, c.where, "the copy out of the old block is `%s` bytes long whatever the size of the old block: growing an allocation reads past its end" % X.show(ln)[:60], cfg)
+    elif not has_req:
+        ck.violated(rid, inst, c.where, "the copy into the new block is `%s` bytes long whatever the requested size: shrinking an allocation writes past the end of the new block" % X.show(ln)[:60], cfg)
+    else:
+        ck.holds(rid, inst, c.where, "copies min(requested size, old block size) bytes", cfg)
+    # the reported old block size
+    be = P.fn("buddy_best_effort_realloc")
+    inst = "old-size@buddy_best_effort_realloc"
+    stores = [m for m in be.walk() if m.k == "BinaryOperator" and m.op == "=" and X.strip(m.children[0]).k == "MemberExpr" and X.strip(m.children[0]).name == "original"]
+    climb = set()
+    for lp in be.walk():
+        if lp.k in ("ForStmt", "WhileStmt", "DoStmt"):
+            conds = [x for x in lp.children if x.k != "Null" and "longest" in X.show(x)[:200]]
+            if not any("longest" in X.show(ch) for ch in ([lp.children[2]] if lp.k == "ForStmt" else [lp.children[0] if lp.k == "WhileStmt" else lp.children[1]]) if ch.k != "Null"):
+                continue
+            for x in lp.walk():
+                if x.k == "UnaryOperator" and x.op == "++" and X.strip(x.children[0]).k == "DeclRefExpr":
+                    climb.add(X.strip(x.children[0]).did)
+    if not stores or len(climb) != 1:
+        ck.inconclusive(rid, inst, be.where, "the store of .original / the climb that finds the order of the block were not recognised", cfg)
+        return
+    cdid = next(iter(climb))
+    for m in stores:
+        val = m.children[1]
+        reads = {}
+        todo = [val]
+        seen = 0
+        while todo and seen < 200:
+            n = todo.pop()
+            seen += 1
+            n = X.strip(n) if n.k in ("ImplicitCastExpr", "ParenExpr", "CStyleCastExpr") else n
+            if n.k == "DeclRefExpr" and n.d.get("sc") in ("local", "param"):
+                r = Q.resolve_local(be, n)
+                if r is not n and not (r.k == "DeclRefExpr" and r.did == n.did):
+                    todo.append(r)
+                else:
+                    reads[n.did] = n.name
+                continue
+            todo.extend(n.children)
+        if set(reads) != {cdid}:
+            wrong = sorted(v for d, v in reads.items() if d != cdid)
+            ck.violated(rid, inst, m.where, "the old block size reported to rs_realloc is computed from %s, not (only) from the order found by climbing the allocation tree from the block: the copy length is then not bounded by the old block" % (wrong or "no variable"), cfg)
+            return
+        name = reads[cdid]
+        for v in range(6, 17):
+            got = ceval.ev(val, {name: v})
+            if got is None:
+                ck.inconclusive(rid, inst, m.where, "reported size `%s` is not evaluable" % X.show(val)[:60], cfg)
+                return
+            if got > (1 << v):
+                ck.violated(rid, inst, m.where, "a block of order %d (%d bytes) is reported as %d bytes: rs_realloc copies past its end" % (v, 1 << v, got), cfg)
+                return
+    ck.holds(rid, inst, stores[0].where, "reports at most 1 << order of the block, the order being found by the climb from the block's leaf", cfg)
